@@ -168,6 +168,70 @@ fn main() {
 				}
 			}
 		}
+		// acquisition order: every constructor (try_new, new, new_ref) of every sorting collection,
+		// every listing permutation x every address permutation, nested members, owned groups as
+		// units, both modes; two collections over the same locks in one program
+		"order" => {
+			let maxn = if quick { 3 } else { 4 };
+			for n in 2..=maxn {
+				for kinds in [vec![false; n], vec![true; n]] {
+					let rw_all = kinds[0];
+					let l = |i: usize| if kinds[i] { Expr::R(i) } else { Expr::M(i) };
+					for perm in permutations(n) {
+						for listing in permutations(n) {
+							if !quick || n <= 2 || rng.chance(1, 2) {
+								let members: Vec<Expr> = listing.iter().map(|i| l(*i)).collect();
+								let v = Expr::V(members.clone());
+								let bx = |e: Expr| Box::new(e);
+								let mut menus: Vec<Vec<Expr>> = vec![
+									vec![Expr::B(bx(v.clone()))],
+									vec![Expr::F(bx(v.clone()))],
+									vec![Expr::Bn(0, bx(v.clone()))],
+									vec![Expr::Bn(1, bx(v.clone()))],
+									vec![Expr::Fn(bx(v.clone()))],
+									vec![Expr::Tn(0, bx(v.clone()))],
+									vec![Expr::Tn(1, bx(v.clone()))],
+									// nested: a retrying / boxed member contributes its leaves to the outer sort
+									vec![Expr::B(bx(Expr::V(vec![
+										Expr::Tn(0, bx(Expr::V(members[..n - 1].to_vec()))),
+										members[n - 1].clone(),
+									])))],
+									vec![Expr::Fn(bx(Expr::V(vec![
+										members[0].clone(),
+										Expr::Bn(0, bx(Expr::V(members[1..].to_vec()))),
+									])))],
+									// an owned group is one unit (address below all leaves / above all)
+									vec![Expr::B(bx(Expr::V(vec![
+										Expr::O(2 * n + 1, bx(Expr::V(members[..n - 1].to_vec()))),
+										members[n - 1].clone(),
+									])))],
+									vec![Expr::Fn(bx(Expr::V(vec![
+										members[0].clone(),
+										Expr::O(1, bx(Expr::V(members[1..].to_vec()))),
+									])))],
+								];
+								// two sorting collections over the same locks, listed differently
+								let rev: Vec<Expr> = members.iter().rev().cloned().collect();
+								menus.push(vec![Expr::B(bx(v.clone())), Expr::Fn(bx(Expr::V(rev)))]);
+								for colls in menus {
+									let modes: &[bool] = if rw_all { &[true, false] } else { &[true] };
+									for &write in modes {
+										let mut prog = vec![Stmt::Get];
+										for c in 0..colls.len() {
+											prog.push(session(c, Api::Lock, write, true, vec![], Exit::Unlock));
+											prog.push(session(c, Api::Scoped, write, false, vec![], Exit::Ret));
+										}
+										let c = base(format!("{family}{bi}"), n, &perm, &colls, &vec![b'F'; n], prog);
+										bi += 1;
+										sink_runs += explore(&c, Budget { refusals: 0, faults: 0, max_runs: 1 }, &mut |c, r| out.emit(c, r));
+									}
+								}
+							}
+						}
+					}
+				}
+			}
+		}
 		// non-acquiring operations (Debug, is_poisoned, clear_poison) in every hold state: locks held
 		// by another thread, by the caller through a live guard or a running closure, or free;
 		// with one-shot faults inside Debug's try/unlock
